@@ -150,6 +150,36 @@ def check_C06(chk, tier, seed):
             script = []
         cases.append(f"SE {c[2:]} {ws(script)}")
         expect.append(("write", "SE ok " + xb(fr)))
+        # every now and then an encode that fails in between - a message the wire cannot carry (nothing may be written), a
+        # writer that breaks in mid-frame (a prefix is written) - on the same thread: the next message must go out clean
+        if k % 9 == 0:
+            cases.append(f"SE g NEW 110 4 0 1 2 2 ADDAVP 3f3 - 0 L oct x0102030405 ADDAVP 3f4 - 0 L time 83aa7e80 {ws([])}")
+            expect.append(("write-refused", "SE err x"))
+        if k % 9 == 4:
+            cut = 1 + r.below(max(1, len(fr) - 1))
+            cases.append(f"SE {c[2:]} {ws([f'b:{cut:x}', 'x'])}")
+            expect.append(("write-fault", "SE err " + xb(fr[:cut])))
+    # large messages and frames: sizes that are not a multiple of any buffer size a codec might use (4096, 8192, 16384,
+    # 65536), written through writers of various appetites, and read back pipelined with small frames with the seam between
+    # two frames falling inside one delivery
+    big_lines = [f"H g NEW 110 4 0 {hx(7 + j)} 2 1 ADDAVP 3f3 - 0 L octz {hx(n)}" for j, n in enumerate([4100, 5000, 9001, 16385, 21000] + ([70000, 300001] if tier == "thorough" else []))]
+    big = []
+    for c, im in zip(big_lines, core.run_sharded([eng.harness, "codec"], eng.prelude, big_lines, shards=1)):
+        if im.startswith("R ok") and " ENC x" in im:
+            big.append((c, bytes.fromhex(im[im.rindex(" ENC ") + 6:]), msg_text(im)))
+    for (c, fr, obs) in big:
+        for script in ([], [4096] * (len(fr) // 4096 + 1), [1000, "p"] * (len(fr) // 1000 + 1), [16384] * (len(fr) // 16384 + 1), [len(fr) - 1, 1]):
+            cases.append(f"SE {c[2:]} {ws(script)}")
+            expect.append(("write-large", "SE ok " + xb(fr)))
+        small = msgs[len(fr) % len(msgs)]
+        stream = small[1] + fr + small[1] + small[1]
+        a = len(small[1]) + len(fr)
+        want = (f"SD [OK {small[2]} @{len(small[1])}] [OK {obs} @{a}] [OK {small[2]} @{a + len(small[1])}] [OK {small[2]} @{len(stream)}] [EOF @{len(stream)}]")
+        for cuts in ([a - 7, a + 9], [a - 1, a + 1], [len(small[1]) + 3, a - 4000, a + 3], [4096, 8192, a + len(small[1]) + 2], [a + 2 * len(small[1]) - 1]):
+            cuts = sorted(x for x in set(cuts) if 0 < x < len(stream))
+            chunks = [stream[i:j] for i, j in zip([0] + cuts, cuts + [len(stream)])]
+            cases.append(f"SD g 5 {rs(chunks, 'e')}")
+            expect.append(("read-large", want))
     impl, model = eng.run(cases)
     for i, (c, ex, im, mo) in enumerate(zip(cases, expect, impl, model)):
         chk.case(c, " p" in c or c.count("c:") >= 2 or c.count("a:") >= 2)
@@ -157,7 +187,7 @@ def check_C06(chk, tier, seed):
         chk.count(ex[0])
         ok = im == ex[1]
         if not ok:
-            if ex[0] == "read":
+            if ex[0].startswith("read"):
                 chk.violation("reading concatenated frames from a segmented stream did not yield exactly those messages with exactly their octets consumed per call"
                               + (" (the reader never completed)" if "HANG" in im else ""),
                               dict(case=c, impl=short(im, 3000), expected=short(ex[1], 3000)))
@@ -171,7 +201,9 @@ def check_C06(chk, tier, seed):
     chk.rule = (f"{nexh} short streams (1-3 frames, <= 96 octets): every pair of cut positions exhaustively; {nrand} random streams of 1-4 frames: one-octet dribble, "
                 "dribble with Pending after every octet, random chunkings with Pending runs, trailing partial frame, error instead of EOF; one/two Pending entries at "
                 "every position of a dribbled 2-frame stream; octets consumed after each call compared; write side: one-octet accepts, Pending before every accept, "
-                "random accept sizes; non-trivial = at least two chunks or a Pending")
+                "random accept sizes, failing encodes (unrepresentable message, writer breaking in mid-frame) interleaved on the same thread; messages of 4100 ... 21000 "
+                "octets (thorough: 300 KB) through writers taking 1000 / 4096 / 16384 octets per call, and read back pipelined between small frames with the seam between "
+                "frames inside one delivery; non-trivial = at least two chunks or a Pending")
     chk.assumptions = ["tokio read_exact / write_all are exercised through their real implementation on scripted AsyncRead/AsyncWrite, and modelled by their documented contract (partial)"]
 
 
@@ -305,6 +337,26 @@ def server_scenarios(rng, eng, msgs, n, tier):
         res = "closed" if bad is None else "failed"
         exp = f"SV {res} CALLS {len(calls)}" + "".join(" " + x for x in calls) + f" WRITTEN {xb(written)}"
         out.append((case, exp, bad or "good", nreq))
+    # retransmissions and duplicates: the same request two or three times on one connection, with the T (potentially
+    # re-transmitted) flag set on the copies, identical End-to-End / Hop-by-Hop ids - each one is a request: the handler
+    # is called for each, in order, and each gets the handler's (possibly different) answer
+    for k in range(40 if tier == "quick" else 2000):
+        r = rng.fork(f"dup{k}")
+        base = msgs[r.below(len(msgs))]
+        fr = bytearray(base[1])
+        copies = []
+        for j in range(r.range(2, 4)):
+            f2 = bytearray(fr)
+            if j > 0 and r.chance(3, 4):
+                f2[4] |= 0x10
+            copies.append(bytes(f2))
+        other = [msgs[r.below(len(msgs))] for _ in range(r.range(0, 2))]
+        frames = copies[:1] + [o[1] for o in other] + copies[1:]
+        answers = [msgs[r.below(len(msgs))] for _ in frames]
+        stream = b"".join(frames)
+        chunks = [stream] if r.chance(1, 2) else random_chunking(r, stream)
+        case = f"SV g {rs(chunks)} {ws([])} {len(frames)} " + " ".join("A " + a[0][2:] for a in answers)
+        out.append((case, ("ret", xb(b"".join(a[1] for a in answers))), "retransmission", len(frames)))
     # long pipelines: far more request octets in flight than any per-connection buffer a server might keep (8 KiB, 64 KiB),
     # delivered in chunks that do not respect request boundaries
     for k, (nreq, csize) in enumerate([(150, 512), (150, 4096), (300, 8192), (120, 100000), (200, 777)] if tier == "quick" else
@@ -349,7 +401,13 @@ def check_C08(chk, tier, seed):
         chk.validated += 1
         chk.count("scenario:" + kind)
         chk.count(f"requests:{nreq}")
-        ok = strip_consumed(im) == exp
+        if isinstance(exp, tuple):
+            # the calls' content is compared with the model below; here: one call per frame, exactly the answers written, clean close
+            t = strip_consumed(im)
+            ok = t.startswith(f"SV closed CALLS {nreq} [") and t.endswith(" WRITTEN " + exp[1])
+            exp = f"SV closed CALLS {nreq} [one call per frame, copies included] WRITTEN {exp[1]}"
+        else:
+            ok = strip_consumed(im) == exp
         if not ok:
             chk.violation("the connection loop did not call the handler exactly once per request in order and write exactly its answers (or did not stop at the first "
                           "malformed frame / handler failure)" + (": the connection task never completed" if "HANG" in im else "") + (": it panicked" if "panicked" in im else ""),
@@ -361,7 +419,7 @@ def check_C08(chk, tier, seed):
     chk.rule = ("1..8 requests (random AVP content) with handler answers of random size; delivery: one chunk (pipelined), one chunk per frame, one-octet dribble, random "
                 "chunkings with Pending; writer: unconstrained, one octet per poll, random accept sizes with Pending; in 3/5 of the scenarios one malformed frame "
                 "(AVP length below its header, unknown command, unknown AVP, hostile announced length), one failing handler call or one unencodable answer at a random "
-                "position; handler call log (content, order), octets written and the result of the connection future compared; non-trivial = >= 2 requests or a fault")
+                "position; the same request sent two to four times with the T flag on the copies (each is a request of its own); handler call log (content, order), octets written and the result of the connection future compared; non-trivial = >= 2 requests or a fault")
     chk.assumptions = ["partial: tokio contract; the handler is a scripted closure (the theorem quantifies over all handlers)", "hook verif_serve_stream = the private per-connection loop"]
 
 
